@@ -34,15 +34,18 @@ def run(prop, tier):
     if tier != "quick":
         sc += [(m, s, h) for m in (20, 33, 128) for s in (21, 77) for h in (5, 50, 150)]
     vec["irq_timers"] = dict(cases=[dict(mp=m, sp=s, handler_nops=h, steps=3000 if tier == "quick" else 12000) for m, s, h in sc])
-    res = RS.run(vec, ["irq", "irq_timers"], timeout=3000)
+    vec["irq_reti"] = dict(all=True)
+    res = RS.run(vec, ["irq", "irq_timers", "irq_reti"], timeout=3000)
     keep = (v.obligations, v.discharged)
-    v.absorb(RS.reports(res, vec, ["irq", "irq_timers"]), known, expect_obligations=False)
+    v.absorb(RS.reports(res, vec, ["irq", "irq_timers", "irq_reti"]), known, expect_obligations=False)
     v.obligations, v.discharged = keep
     v.bounded = [RS.summarize(res, "irq", "one CoreRuntime::step over a NOP on the compiled crate for IMR in %s x all 256 ISR values x pending flag x in-interrupt flag x running/halted: taken only if master enable and "
                                           "mask&status allow it, stack moves by 5 or 0, frame layout PC/F/IMR, master enable cleared, continues at the vector, bookkeeping flags; otherwise stack, IMR untouched and PC after the NOP, "
                                           "pending request kept; deliverable request taken at this boundary; HALT wakes iff ISR != 0 and executes nothing otherwise" % ("26 values (both master-enable settings x 13 source masks)" if tier == "quick" else "all 256 values")),
                  RS.summarize(res, "irq_timers", f"{len(sc)} scenarios on the compiled crate (main program NOPs, handler = n NOPs + RETI, both timers enabled and unmasked, periods/handler length {sc[:6]}...): "
                                                      "stepped one instruction at a time; a handler for a source is entered only after an unserved expiry of that source, and every expiry is served before the run and a drain phase end"),
+                 RS.summarize(res, "irq_reti", "handler round trip on the compiled crate (NOP program, handler = RETI, timers off) for every non-empty set of pending sources among bits 0-3 x every source mask x master enable on/off: "
+                                                   "handler entered iff deliverable; after the matching RETI at most one status bit was acknowledged and it belongs to an enabled source; masked pending requests are still pending"),
                  dict(part="schedule/liveness clauses (interleavings over several steps), OFF state, RETI in the Rust evaluator", bound="not covered", note="not decided: whole-history properties are outside this family")]
     v.samples = [dict(obligation="gate:enabled-and-pending=>delivered", statement="forall IMR,ISR,F,S,pending: pending and IRM and (IMR&ISR&0x7F) != 0 => the step pushes the 5-byte frame and continues at the vector"),
                  dict(obligation="halt:wakes-iff-status-pending", statement="halted' == (ISR == 0) after one step of a halted CPU")]
